@@ -47,6 +47,9 @@ pub struct C09World {
     pub ops: Vec<u8>,
     pub tag: String,
     pub hash_seed: u64,
+    /// operands whose edges cross at non-representable points: executions are compared as regions
+    /// (sampled, with tolerance) instead of bit for bit
+    pub inexact: bool,
 }
 
 struct Run {
@@ -70,6 +73,9 @@ fn exec(w: &C09World, op: u8, no_shortcut: bool, no_early: bool, with_handler: b
     h.budget.set(simhooks::event_budget(geom::edge_count(&w.a) + geom::edge_count(&w.b)));
     h.no_shortcut.set(no_shortcut);
     h.no_early.set(no_early);
+    // reference configuration: the boxes are the whole plane from the moment they are accumulated, so that no
+    // box-derived pruning anywhere (queue filling included) can be active
+    h.widen_source.set(no_shortcut && no_early);
     h.shortcut_fired.set(0);
     h.early_fired.set(0);
     h.after_sweep_seen.set(false);
@@ -157,7 +163,17 @@ impl C09World {
                     });
                 }
             };
-            if handler && !v.shortcut {
+            if handler && !v.shortcut && self.inexact {
+                // crossing lattice polygons: intersection points are rounded, a result vertex may legitimately differ
+                // in its last bits depending on how far the sweep ran; compare the regions (sampled away from edges)
+                st.inc("region_comparisons_inexact_family");
+                if let Some((x, y)) = geom::region_diff_evenodd(res, rres) {
+                    return Some(Violation {
+                        class: if v.early { "early_exit_changes_region".into() } else { "switch_changes_region".into() },
+                        detail: format!("{} [{}; early exit taken: {}]: point ({}, {}) is in exactly one of {} and reference {}", name, cfg, v.early, x, y, geom::wkt(res), geom::wkt(rres)),
+                    });
+                }
+            } else if handler && !v.shortcut {
                 // same instruction sequence up to the first event right of the bound: bit identity
                 if img != rimg {
                     st.inc("bit_comparisons");
@@ -234,12 +250,13 @@ impl World for C09World {
         let mut b = fam(&mut r);
         // third exact family: valid lattice polygons whose edges never meet the other operand's edges (side by
         // side or nested): no intersection point is ever computed, vertices can be strict extremes
-        let lattice = !stars && r.chance(3, 10);
+        let lattice = !stars && r.chance(7, 20);
         if lattice {
             a = geom::gen_valid_star_operand(&mut r, g);
             b = geom::gen_valid_star_operand(&mut r, (g / 2).max(4));
-            if r.chance(2, 5) {
-                // deliberately nested: a tiny triangle or square at a random lattice point inside `a`
+            if r.chance(3, 5) {
+                // a tiny triangle or square at a random lattice point of `a`'s box: nested inside `a`, in one of its
+                // concavities, or just beside it
                 if let Some(ba) = geom::bbox(&a) {
                     for _ in 0..12 {
                         let (x, y) = (r.range(ba.0 as i64, ba.2 as i64) as f64, r.range(ba.1 as i64, ba.3 as i64) as f64);
@@ -252,7 +269,7 @@ impl World for C09World {
                         let f = ring[0];
                         ring.push(f);
                         let tiny: Operand = vec![vec![ring]];
-                        if geom::contains(&a, x + 0.5, y + 0.5) && geom::edges_apart(&a, &tiny) {
+                        if geom::edges_apart(&a, &tiny) {
                             b = tiny;
                             break;
                         }
@@ -324,11 +341,31 @@ impl World for C09World {
                 }
             }
         }
-        let tag = if lattice { format!("lattice non-crossing; {}", tag) } else { tag };
+        // fourth family (inexact): valid lattice polygons that may cross each other
+        // (calibration aid, like `stars`: on the unchanged tree this family is not silent even at region level)
+        let crossing = std::env::var("VERIF_C09_FAMILY").map(|v| v == "crossing").unwrap_or(false) && !lattice;
+        if crossing {
+            a = geom::gen_valid_star_operand(&mut r, g);
+            b = geom::translate(&geom::gen_valid_star_operand(&mut r, g), r.range(-g / 2, g / 2) as f64, r.range(-g / 2, g / 2) as f64);
+        }
+        // fifth family: octilinear polygons on the even lattice; operands may cross each other, every true
+        // intersection point is a lattice point
+        let octi = !stars && !lattice && !crossing && r.chance(1, 4);
+        if octi {
+            a = geom::gen_octi_operand(&mut r, g);
+            b = geom::gen_octi_operand(&mut r, g);
+        }
+        let tag = if lattice { format!("lattice non-crossing; {}", tag) } else if crossing { "lattice crossing (region-level comparison)".to_string() } else if octi { format!("octilinear; {}", tag) } else { tag };
         // exact similarity: integer offset, power-of-two scale
         let f32_ = r.chance(1, 4);
         let (dx, dy) = if f32_ || r.chance(1, 2) { (r.range(-40, 40) as f64, r.range(-40, 40) as f64) } else { (r.range(-(1 << 20), 1 << 20) as f64, r.range(-(1 << 20), 1 << 20) as f64) };
-        let s = (2.0f64).powi(r.range(-3, 3) as i32);
+        // power-of-two scales keep every step exact; occasionally far from 1 (absolute tolerances show only there)
+        let s = if r.chance(1, 5) {
+            // bounded so that fourth powers of coordinate differences neither underflow nor overflow in F
+            (2.0f64).powi(if f32_ { r.range(-24, 20) } else { r.range(-200, 200) } as i32)
+        } else {
+            (2.0f64).powi(r.range(-3, 3) as i32)
+        };
         a = geom::scale(&geom::translate(&a, dx, dy), s);
         b = geom::scale(&geom::translate(&b, dx, dy), s);
         let f32_ = f32_ && geom::fits_f32(&a) && geom::fits_f32(&b);
@@ -345,13 +382,13 @@ impl World for C09World {
         if ops.is_empty() {
             ops.push(r.below(4) as u8);
         }
-        C09World { a, b, f32_, pairing: r.below(4) as u8, ops, tag, hash_seed: Rng::stream(seed, "hashkeys").next() }
+        C09World { a, b, f32_, pairing: r.below(4) as u8, ops, tag, hash_seed: Rng::stream(seed, "hashkeys").next(), inexact: crossing || stars }
     }
 
     fn to_json(&self) -> Value {
         json!({"subject": geom::operand_json(&self.a), "clip": geom::operand_json(&self.b), "float": if self.f32_ { "f32" } else { "f64" },
             "pairing": self.pairing, "pairing_name": PAIRINGS[self.pairing as usize], "ops": self.ops.iter().map(|o| OP_NAMES[*o as usize]).collect::<Vec<_>>(),
-            "placement": self.tag, "hash_key_seed": self.hash_seed.to_string(), "subject_wkt": geom::wkt(&self.a), "clip_wkt": geom::wkt(&self.b)})
+            "placement": self.tag, "inexact_family": self.inexact, "hash_key_seed": self.hash_seed.to_string(), "subject_wkt": geom::wkt(&self.a), "clip_wkt": geom::wkt(&self.b)})
     }
 
     fn from_json(v: &Value) -> Result<Self, String> {
@@ -363,6 +400,7 @@ impl World for C09World {
             ops: v["ops"].as_array().ok_or("ops")?.iter().filter_map(|o| OP_NAMES.iter().position(|n| Some(*n) == o.as_str()).map(|i| i as u8)).collect(),
             tag: v["placement"].as_str().unwrap_or("").to_string(),
             hash_seed: v["hash_key_seed"].as_str().and_then(|s| s.parse().ok()).unwrap_or(0),
+            inexact: v["inexact_family"].as_bool().unwrap_or(false),
         })
     }
 
@@ -379,7 +417,7 @@ impl World for C09World {
                 break;
             }
         }
-        simhooks::handler(); // leave a handler installed for the next world
+        simhooks::handler().widen_source.set(false);
         let me = self;
         st.sample(3, || me.to_json());
         log.add(violation.is_some() as u64);
